@@ -1925,7 +1925,9 @@ func (r stack) assembleStringStack(str []string, ot string, oc stackType) string
 	builder := newStringBuilder()
 
 	if r.positive(lonce) {
-		if oc != list {
+		// the operator leads the elements; with
+		// no element there is nothing to lead.
+		if oc != list && len(str) > 0 {
 			builder.WriteString(ot)
 		}
 		for _, val := range str {
